@@ -31,7 +31,7 @@ func newC11FlushEnv() *c11FlushEnv {
 	e.gpuPort = e.d.GetPortByName("GPU")
 	(&fakeConn{name: "c"}).PlugIn(e.gpuPort)
 	e.cpPort = sim.NewPort(nil, 64, 64, "FakeGPU.ToDriver")
-	e.d.RegisterGPU(e.cpPort, driver.DeviceProperties{CUCount: 4, DRAMSize: 1 << 28})
+	e.d.RegisterGPU(e.cpPort, driver.DeviceProperties{CUCount: 4, DRAMSize: 1 << 24})
 	e.ctx = e.d.Init()
 	e.qCopy = e.d.CreateCommandQueue(e.ctx)
 	e.qKernel = e.d.CreateCommandQueue(e.ctx)
